@@ -256,6 +256,7 @@ func runC18(env *lib.Env, rep *lib.Report) {
 	states := []string{"selected", "no-use", "failed-use", "failed-use-after-use"}
 	rep.Bounds["read-only statements"] = len(selects)
 	rep.Bounds["mutating statements (each on a fresh database)"] = len(muts)
+	rep.Bounds["after each mutating statement"] = "SELECT * FROM t; one tick of every flush timer that exists; USE d; SELECT * FROM t"
 	rep.Bounds["session states"] = states
 	rep.Bounds["database"] = "t(a int,b bigint,c varchar,d boolean) with NULLs in every column and a duplicate row; u(a,e) with a NULL; empty table e; dd(a int, a varchar) and the column-less z with two rows if they can be created"
 	fails := map[string]int{}
@@ -403,6 +404,20 @@ func runC18(env *lib.Env, rep *lib.Report) {
 			e2 := guard(func() error { return w.sess.ExecQuery("SELECT * FROM t") })
 			storage.VerifSetFuel(-1)
 			judge(state, q+" ; SELECT * FROM t", e2)
+			// ... and whatever the statement left running: every flush timer that exists now fires once, then the
+			// database is selected (again) and queried
+			for _, st := range storage.VerifStores() {
+				if st.Flusher && !st.Dead && st.Alive() {
+					st := st
+					judge(state, q+" ; <flush timer tick>", guard(func() error { return st.Tick() }))
+				}
+			}
+			storage.VerifSetFuel(worldFuel)
+			e3 := guard(func() error { return w.sess.ExecQuery("USE d") })
+			judge(state, q+" ; <tick> ; USE d", e3)
+			e4 := guard(func() error { return w.sess.ExecQuery("SELECT * FROM t") })
+			storage.VerifSetFuel(-1)
+			judge(state, q+" ; <tick> ; USE d ; SELECT * FROM t", e4)
 			w.destroy()
 		}
 	}
